@@ -6,7 +6,8 @@
    policy  the verdict of a minimum-security policy is exactly  level >= minimum
    optset  the verdict of an option-set policy is exactly membership of the proof's options
    prov_m  (hook) the proven level per proximity parameter m = 3 .. upper bound + 1: the bound is the first inadmissible m,
-           inadmissible parameters contribute nothing, and the reported level is the best admissible one, capped      *)
+           inadmissible parameters contribute nothing, and the reported level is the best admissible one, capped
+   hasher  the declared collision resistance of each of the six hash functions against its documented digest size      *)
 EXTENDS Security, Json, IOUtils, TLCExt
 
 Rec == ndJsonDeserialize(IOEnv.TRACE)
@@ -35,7 +36,14 @@ ProvM == /\ E.ev = "prov_m"
             /\ \A k \in DOMAIN E.f : ~Admissible(n, k + 2) => E.f[k] = 0
             /\ E.level = ProvenFrom(E.f, n, E.cr)
 
-Next == l <= Len(Rec) /\ (Row \/ Mono \/ Policy \/ OptSet \/ ProvM) /\ l' = l + 1
+\* hasher  the collision resistance a hash function declares is half its documented digest size (Security.tla DigestBits), and it
+\*         is the level of a proof whose field and query terms are saturated (conjectured estimate; the proven one never exceeds it)
+Hasher == /\ E.ev = "hasher"
+          /\ E.name \in DOMAIN DigestBits
+          /\ E.cr = CollisionResistance(E.name)
+          /\ E.cap_conj = E.cr /\ E.cap_prov <= E.cr
+
+Next == l <= Len(Rec) /\ (Row \/ Mono \/ Policy \/ OptSet \/ ProvM \/ Hasher) /\ l' = l + 1
 
 Accepted ==
     LET d == TLCGet("stats").diameter
